@@ -25,13 +25,18 @@ def ticks(x):
     return int(v)
 
 
+def amount(t):
+    """'a': ticks of 1/64 (exact in binary); 'c': cents (decimal stream: generally NOT exact in binary)"""
+    return t['a'] / TICK if 'a' in t else t['c'] / 100
+
+
 def build_txns(job):
     out = []
     ms = job['merchants']
     order = job.get('order') or [[i, j] for i, m in enumerate(ms) for j in range(len(m['txns']))]
     for mi, ti in order:
         m, t = ms[mi], ms[mi]['txns'][ti]
-        out.append({'amount': t['a'] / TICK, 'merchant': m['name'], 'category': m['cat'], 'subcategory': m['sub'],
+        out.append({'amount': amount(t), 'merchant': m['name'], 'category': m['cat'], 'subcategory': m['sub'],
                     'date': datetime.strptime(t['d'], '%Y-%m-%d'), 'source': 'S', 'description': m['name'].upper(),
                     'tags': list(t['tags'])})
     return out
@@ -74,7 +79,7 @@ def own_groups(job):
         txns = []
         for t in m['txns']:
             d = datetime.strptime(t['d'], '%Y-%m-%d')
-            txns.append({'amount': t['a'] / TICK, 'date': d, 'category': m['cat'], 'subcategory': m['sub'],
+            txns.append({'amount': amount(t), 'date': d, 'category': m['cat'], 'subcategory': m['sub'],
                          'merchant': m['name'], 'tags': list(tags)})
             months.add(t['d'][:7])
             years.add(d.year)
@@ -108,11 +113,12 @@ def run_job(job):
     try:
         try:
             r = analyzer.classify_by_sections(stats['by_merchant'], cfg, stats['num_months'])
-            views = []
+            views, totals_f = [], {}
             for name, members in r.items():
                 t = analyzer.compute_section_totals(members)
                 views.append([name, [m for m, _ in members], ticks(t['total']), t['count']])
-            res['run'] = {'views': views}
+                totals_f[name] = float(t['total'])
+            res['run'] = {'views': views, 'totals_f': totals_f}
         except Exception as e:  # noqa
             res['run'] = {'error': type(e).__name__, 'message': str(e)[:200]}
     finally:
